@@ -1006,14 +1006,14 @@ func genGet(r *rng, kind string, k int) *scenario {
 			w.Clock = int64(r.intn(2000000000)) - 100000000
 			return sc
 		}
-		if r.chance(1, 4) {
+		if r.chance(1, 4) || k%5 == 1 { // every fifth handler scenario serves a Tombstone, every other of them under several type names
 			id := local + "/tomb/1"
 			w.Store[id] = jmap{"@context": asCtx, "type": "Tombstone", "id": id, "formerType": "Note", "deleted": "2020-01-01T00:00:00Z"}
 			if r.chance(1, 2) { // a Tombstone that kept hidden recipients
 				w.Store[id]["bto"] = actorID(remote, "carol")
 				w.Store[id]["bcc"] = []interface{}{actorID(remote, "dave"), jmap{"type": "Person", "id": actorID(remote, "erin")}}
 			}
-			if r.chance(1, 2) { // a Tombstone under several type names
+			if r.chance(1, 2) || k%10 == 1 { // a Tombstone under several type names
 				w.Store[id]["type"] = []interface{}{"Tombstone", "ext:Archived"}
 			}
 			sc.Path = "/tomb/1"
@@ -1031,7 +1031,7 @@ func genGet(r *rng, kind string, k int) *scenario {
 			w.Clock = int64(r.intn(2000000000)) - 100000000
 			return sc
 		}
-		if r.chance(1, 2) { // hidden recipients at several depths
+		if k%5 != 1 && r.chance(1, 2) { // hidden recipients at several depths
 			id := local + "/activities/served"
 			inner := jmap{"type": "Note", "id": local + "/notes/x", "content": "x", "bto": actorID(remote, "carol"), "bcc": []interface{}{actorID(remote, "dave"), actorID(remote, "erin")}}
 			mid := jmap{"type": "Create", "id": local + "/activities/mid", "actor": alice, "object": inner, "bcc": actorID(remote, "erin")}
